@@ -242,6 +242,10 @@ impl C09 {
             // the recipe from the feasibility run: fresh Nucleo, extend of 4074 items held at 4064, tick reads the bucket
             Script { nucleo: true, capacity: 0, columns: 1, pool_threads: 2, threads: vec![vec![SOp::Reparse { text: 0 }, SOp::WaitFlag { k: 0 }, SOp::Tick { timeout: 10 }, SOp::GetRange { from: 4060, to: 4070 }, SOp::Reparse { text: 2 }, SOp::Tick { timeout: 10 }, SOp::SetFlag { k: 1 }, SOp::SleepMs { ms: 5 }, SOp::Tick { timeout: 10 }], vec![SOp::ExtendHeld { n: 4074, at: 4064, set: 0, wait: 1 }]] },
             Script { nucleo: true, capacity: 0, columns: 1, pool_threads: 3, threads: vec![vec![SOp::Restart { clear: true }, SOp::SetFlag { k: 5 }, SOp::Reparse { text: 0 }, SOp::WaitFlag { k: 0 }, SOp::Tick { timeout: 10 }, SOp::Reparse { text: 1 }, SOp::Tick { timeout: 10 }, SOp::SetFlag { k: 1 }, SOp::SleepMs { ms: 5 }, SOp::Tick { timeout: 10 }], vec![SOp::WaitFlag { k: 5 }, SOp::ExtendHeld { n: 2030, at: 2016, set: 0, wait: 1 }], vec![SOp::WaitFlag { k: 0 }, SOp::Push { n: 30 }]] },
+            // an index handed over through a relaxed store, read through the unchecked getter: the only ordering is
+            // the acquire load inside the getter
+            Script { nucleo: true, capacity: 0, columns: 1, pool_threads: 1, threads: vec![vec![SOp::SleepMs { ms: 1 }], vec![SOp::Push { n: 3 }, SOp::PushTell { slot: 0 }, SOp::Push { n: 40 }, SOp::PushTell { slot: 1 }], vec![SOp::GetUncheckedTold { slot: 0 }, SOp::GetUncheckedTold { slot: 1 }]] },
+            Script { nucleo: true, capacity: 0, columns: 2, pool_threads: 2, threads: vec![vec![SOp::Reparse { text: 0 }, SOp::Tick { timeout: 5 }, SOp::GetUncheckedTold { slot: 2 }, SOp::Tick { timeout: 5 }], vec![SOp::Extend { n: 2040 }, SOp::PushTell { slot: 2 }, SOp::PushTell { slot: 3 }], vec![SOp::GetUncheckedTold { slot: 3 }, SOp::GetUncheckedTold { slot: 2 }]] },
         ]
     }
     fn run_script(&self, sc: &Script) -> Outcome {
